@@ -299,6 +299,7 @@ func (ms *ModbusServer) acceptTCPClients() {
 			continue
 		}
 
+		verifYield("accept:taken")
 		ms.lock.Lock()
 		// apply a connection limit
 		if ms.started && uint(len(ms.tcpClients)) < ms.conf.MaxClients {
@@ -309,6 +310,7 @@ func (ms *ModbusServer) acceptTCPClients() {
 			accepted = false
 		}
 		ms.lock.Unlock()
+		verifYield("accept:enrolled")
 
 		if accepted {
 			// spin a client handler goroutine to serve the new client
@@ -359,6 +361,7 @@ func (ms *ModbusServer) handleTCPClient(sock net.Conn) {
 	}
 
 	// once done, remove our connection from the list of active client conns
+	verifYield("session:ended")
 	ms.lock.Lock()
 	for i := range ms.tcpClients {
 		if ms.tcpClients[i] == sock {
